@@ -200,7 +200,7 @@ class Node:
         if isinstance(self, Decision):
             for idx, t in enumerate(self.outgoing_transitions):
                 # TODO: this is not efficient
-                incoming = [i for i in t.target.incoming_transitions if i.outgoing_idx == idx][0]
+                incoming = [i for i in t.target.incoming_transitions if i.outgoing_idx == idx and i.source is self][0]
                 if incoming._len_to_root > length:
                     incoming._len_to_root = length
                     t.target._analyze_forwards(length+1)
